@@ -429,6 +429,14 @@ def discharge(E, obs, tier="quick", jobs=None, log=None, inproc_ms=None, timeout
             elif retry:
                 for o in retry:
                     o.status, o.model, o.solver = saved[id(o)]
+            # a counterexample of the abstraction whose refinement no solver decides (neither confirmed nor
+            # refuted) is still worth replaying: the native run is the ground truth for its input values
+            for o in again:
+                if o.status not in ("sat", "unsat", "trivial"):
+                    st0, m0, sv0 = saved[id(o)]
+                    if m0:
+                        o.status, o.model, o.solver = st0, m0, sv0
+                        o.note = "abstract-sat-unrefined"
             stats["solver_s"] += st2["solver_s"]
             stats["refined"] = len(again)
             for k, v in st2["by_solver"].items():
